@@ -75,6 +75,13 @@ def one(ctx, pts, cfg, family):
         else:
             k = [int(v) for v in np.asarray(pp.filter_clusters(pr, np.array(c, dtype=int), c12.link_fn(cfg['linkage']), cfg['tl'], getattr(kr.ClusterRanking, cfg['mode']))).tolist()]
         o = [int(v) for v in np.asarray(rdp.mapping(np.array(k, dtype=int), np.array(red), np.array(rem))).tolist()] if len(k) else []
+        if len(k):
+            # the same final stage with the documented `sorted=False` option (any row order of the removed table)
+            perm = list(range(len(rem)))
+            ctx.rng.shuffle(perm)
+            o_uns = [int(v) for v in np.asarray(rdp.mapping(np.array(k, dtype=int), np.array(red), np.array(rem)[perm], sorted=False)).tolist()]
+            if o_uns != o:
+                ctx.fail('predicate', 'mapping(sorted=False, shuffled removed table) equals mapping(sorted=True)', site, case, dict(sorted_true=o, sorted_false=o_uns, row_order=perm)); return
         ev = None
         if cfg.get('final') == 'even' and np.ptp(pts[:, 1]) > 0:
             ev = [int(v) for v in np.asarray(pp.add_points_even(pts, np.array(red), np.array(k, dtype=int), np.array(rem), cfg['tx'], cfg['ty'], bool(cfg['extremes']))).tolist()]
